@@ -4,7 +4,7 @@ import json
 from . import gen, render, termgen
 
 POOL = ['A', 'B', 'C']
-SUPPORTED = {'var', 'const', 'un', 'in', 'fn', 'bin', 'agg', 'clause', 'set', 'join'}
+SUPPORTED = {'var', 'const', 'un', 'in', 'fn', 'bin', 'agg', 'clause', 'set', 'join', 'an'}
 
 
 def enum_rule(rnd):
@@ -155,7 +155,7 @@ def random_viral_units(rnd, n):
     from harness import variants
     from props import c05
     base = (termgen.random_units(rnd, n) + termgen.random_chain_units(rnd, n // 2) + termgen.random_agg_units(rnd, n // 2, maxrows=12)
-            + c05.random_units(rnd, n // 3) + termgen.random_join_units(rnd, n // 2) + nested_units(rnd, 2 * n))
+            + c05.random_units(rnd, n // 3) + termgen.random_join_units(rnd, n // 2) + nested_units(rnd, 2 * n) + termgen.random_analytic_units(rnd, n // 2))
     rnd.shuffle(base)
     out = []
     for u in base:
